@@ -34,7 +34,7 @@ type HistOpts struct {
 	PITReads     bool
 	MaxPostings  int
 	Enforcement  string
-	SecondLedger bool
+	SecondLedger bool // in half of the cases a second ledger shares the bucket and receives a quarter of the writes
 }
 
 // GenFeatures draws one of the 48 feature combinations, biased to the default one.
@@ -230,8 +230,12 @@ func RunHistory(t *rapid.T, st *stats.Collector, o HistOpts) (*World, *LState, *
 	fs := o.Features(t)
 	l := w.AddLedger("l1", "b1", fs)
 	var other *LState
-	if o.SecondLedger {
+	if o.SecondLedger && rapid.Bool().Draw(t, "secondLedgerInTheBucket") {
+		// a neighbour in the same bucket: same account names, same transaction and log ids, its own history
 		other = w.AddLedger("l2", "b1", fs)
+		if st != nil {
+			st.Class("shared-bucket")
+		}
 	}
 	return w, l, w.Drive(t, l, other, o)
 }
